@@ -774,17 +774,37 @@ pub fn c09(cx: &Ctx, v: &mut Vec<Violation>) {
                 v.push(Violation::new("C09", "last-token", format!("last-token-after-error:{:?}", e.k), format!("error {ei} {:?} at byte {off}: last_token {li} starts at {}", e.k, d.toks[li as usize].b)));
             }
         }
-        if let Some(w) = expected_tok(e.k) {
-            let found = d.toks.iter().any(|t| t.t == w && t.b == e.b && t.e == e.b);
-            if !found {
-                v.push(Violation::new("C09", "missing-without-token", format!("missing-without-token:{:?}", e.k), format!("error {ei} {:?} at byte {off} has no zero-width {:?} token there", e.k, w)));
-            }
+    }
+    // 'missing expected' errors and zero-width recovery tokens coincide per symbol and offset. (Not one to one: the
+    // lexer inserts a ')' for every parenthesis open at end of input but reports only the calls' own - '%a(((' has
+    // three recovery tokens and one error; C14 bounds the number of errors by the calls still open.)
+    use std::collections::BTreeMap;
+    let mut zw: BTreeMap<(u32, T), (u32, usize)> = BTreeMap::new();
+    for (i, t) in d.toks.iter().enumerate() {
+        if t.empty() && matches!(t.t, T::RPAREN | T::ASSIGN | T::LPAREN | T::COMMA | T::FSLASH | T::SEMI) {
+            let e = zw.entry((t.b, t.t)).or_insert((0, i));
+            e.0 += 1;
         }
     }
-    for (i, t) in d.toks.iter().enumerate() {
-        if !t.empty() || !matches!(t.t, T::RPAREN | T::ASSIGN | T::LPAREN | T::COMMA | T::FSLASH | T::SEMI) { continue; }
-        if t.t == T::SEMI && t.b as usize == len { continue; }
-        let wantk = match t.t {
+    let mut er: BTreeMap<(u32, T), (u32, usize, EK)> = BTreeMap::new();
+    for (ei, e) in d.errs.iter().enumerate() {
+        if let Some(w) = expected_tok(e.k) {
+            let x = er.entry((e.b, w)).or_insert((0, ei, e.k));
+            x.0 += 1;
+        }
+    }
+    for (&(off, w), &(cnt, ei, k)) in er.iter() {
+        let have = zw.get(&(off, w)).map_or(0, |x| x.0);
+        if have == 0 {
+            v.push(Violation::new("C09", "missing-without-token", format!("missing-without-token:{:?}", k), format!("error {ei} {:?} at byte {off} has no zero-width {:?} token there", k, w)));
+        }
+        let _ = cnt;
+    }
+    for (&(off, w), &(cnt, i)) in zw.iter() {
+        // end-of-input semicolons (one per statement still open there) are inserted without an error
+        let free = if w == T::SEMI && off as usize == len { cnt } else { 0 };
+        let have = er.get(&(off, w)).map_or(0, |x| x.0);
+        let wantk = match w {
             T::RPAREN => EK::MissingExpectedRParen,
             T::ASSIGN => EK::MissingExpectedAssign,
             T::LPAREN => EK::MissingExpectedLParen,
@@ -792,8 +812,8 @@ pub fn c09(cx: &Ctx, v: &mut Vec<Violation>) {
             T::FSLASH => EK::MissingExpectedFSlash,
             _ => EK::MissingExpectedSemiOrEOF,
         };
-        if !d.errs.iter().any(|e| e.k == wantk && e.b == t.b) {
-            v.push(Violation::new("C09", "token-without-missing", format!("token-without-missing:{:?}", t.t), format!("zero-width token {i} {:?} at byte {} has no {:?} error there", t.t, t.b, wantk)));
+        if have == 0 && cnt > free {
+            v.push(Violation::new("C09", "token-without-missing", format!("token-without-missing:{:?}", w), format!("zero-width token {i} {:?} at byte {off} has no {:?} error there", w, wantk)));
         }
     }
 }
